@@ -17,8 +17,15 @@ void register_op(const std::string& name, OpFn f) { ops()[name] = f; }
 void register_abort_hook(void (*f)(int, uint64_t)) { abort_hooks().push_back(f); }
 void register_final_hook(void (*f)()) { final_hooks().push_back(f); }
 
+void api_end() {
+	if (g_shm) g_shm->budget_policy = BUDGET_INCONCLUSIVE;
+	simheap::set_step_budget(0); simheap::reset_step_ticks();
+}
+
 void api_begin() {
 	count(c_api_calls);
+	if (g_shm) g_shm->budget_policy = BUDGET_HANG;
+	simheap::set_step_budget(0); simheap::reset_step_ticks();
 	if (g_plan && g_plan->env.stack_noise) { simheap::stack_noise(); count(c_stack_noise_fills); }
 }
 
@@ -67,7 +74,7 @@ void execute_plan(const Plan& plan) {
 		if (g_shm) {
 			g_shm->cur_step = int32_t(i);
 			const std::string nm = fin ? std::string("<final-checks>") : plan.steps[i].op;
-			size_t n = nm.size() < 63 ? nm.size() : 63; memcpy(g_shm->cur_op, nm.data(), n); g_shm->cur_op[n] = 0;
+			size_t n = nm.size() < 63 ? nm.size() : 63; memcpy(g_shm->cur_op, nm.data(), n); g_shm->cur_op[n] = 0; g_shm->budget_policy = BUDGET_INCONCLUSIVE;
 		}
 		simheap::step_begin();
 		try {
